@@ -8,8 +8,8 @@ each of <path>, <path>_BAK1.._BAK3 holds).
 
 Known defects of the pinned tree whose trigger the generator avoids (witnesses in
 corpus/C14/finding_*.json, replayed through the (P) oracle on every run):
-  D17_dir_double_fault        a faulted *directory* save immediately followed by
-                              another faulted save (trigger predicate: [calm] below)
+  (D17_dir_double_fault, a faulted *directory* save immediately followed by another faulted
+   save, is repaired in /repo and generated again: cases tagged double-dir*)
   (load_fail_renames_existing, a load failing after the "_name" line while a model of the same
    name is open, is repaired in /repo and generated again)
 """
@@ -125,11 +125,16 @@ def sv(fmt, fault=None, **kw):
 
 
 def calm(saves):
-    """the trigger of D17 is absent: no faulted dir save directly followed by a faulted save"""
+    """the former trigger of D17 (a faulted dir save directly followed by a faulted save) is repaired in /repo: every
+    sequence is generated"""
+    return True
+
+
+def d17_shaped(saves):
     for a, b in zip(saves, saves[1:]):
         if a["fmt"] == "dir" and (a["fault"] is not None or a.get("natural")) and (b["fault"] is not None or b.get("natural")):
-            return False
-    return True
+            return True
+    return False
 
 
 def gen_cases(tier, rng, sh, out):
@@ -160,7 +165,16 @@ def gen_cases(tier, rng, sh, out):
                     continue
                 for k in range(sh.nsave(kind, f) + len(pre) + 1):
                     add(kind, [sv(x) for x in pre] + [sv(f, k)], pre[0], "mixed")
-    # B. two faulted saves in a row (zip: every pair; dir first is the D17 trigger and is skipped)
+    # B. two faulted saves in a row (zip: every pair; dir first was the D17 trigger: every second pair)
+    for kind in (["plain"] if tier == "quick" else ["plain", "module", "nested"]):
+        nd = sh.nsave(kind, "dir") + 1
+        nz = sh.nsave(kind, "zip") + 1
+        for k1 in range(0, nd + 1, 1 if tier != "quick" else 2):
+            for k2 in range(k1 % 2, nd + 1, 2):
+                add(kind, [sv("dir"), sv("dir", k1), sv("dir", k2)], "dir", "double-dir")
+            for k2 in range(k1 % 3, nz + 1, 3):
+                add(kind, [sv("zip"), sv("dir", k1), sv("zip", k2)], "zip", "double-dir-zip")
+        add(kind, [sv("dir"), sv("dir", 3), sv("dir", 4), sv("dir", 5), sv("dir", 6)], "dir", "four-failed-dir")
     for kind in (["plain"] if tier == "quick" else ["plain", "module", "nested"]):
         n1 = sh.nsave(kind, "zip") + 1
         for k1 in range(n1 + 1):
@@ -208,7 +222,8 @@ def gen_cases(tier, rng, sh, out):
             nmembers = 12
             dmg = [{"corrupt": {"what": w, "index": i}, "name": "R"} for i in range(nmembers) for w in ("delete", "truncate")]
             cases.append({"model": kind, "saves": [sv(f)], "loads": dmg, "final": None, "tag": "damaged", "ponly": True})
-    out.notes.append("generator avoids the trigger of D17 (faulted dir save directly followed by a faulted save): %d candidate sequences filtered" % filtered)
+    out.notes.append("D17 is repaired in /repo: %d generated sequences hold a faulted directory save directly followed by a faulted save"
+                     % sum(1 for c in cases if d17_shaped(c["saves"])))
     return cases
 
 
